@@ -515,3 +515,45 @@ def c08(c):
              "express them). distinct_nontrivial = (struct, round, offset) cases.",
         exhaustive=False,
         assumptions=["x86-64 natural alignment for guest scalars up to 8 bytes (as in wasm32)", "enumerations keep their host representation"]))
+
+
+# --------------------------------------------------------------------- C11
+@plan("C11")
+def c11(c):
+    import sys
+    sys.path.insert(0, os.path.join(c.verif, "gen"))
+    import sigs as sgen
+    nsig = 24 if not c.thorough else 300
+    groups = 4 if not c.thorough else 15
+    per = (nsig + groups - 1) // groups
+    info = []
+
+    def gen(cx):
+        for g in range(groups):
+            d = os.path.join(cx.bdir, "gen%d" % g)
+            os.makedirs(d, exist_ok=True)
+            info.extend(sgen.gen(per, cx.seed * 100 + g, os.path.join(d, "c11_sigs.hpp")))
+        return True, ""
+    units, runs = [], []
+    for g in range(groups):
+        inc = ["-I" + os.path.join(c.bdir, "gen%d" % g)]
+        for cfg in (["ilp32", "wide"] if (c.thorough or g % 2 == 0) else ["ilp32"]):
+            nm = "c11_%s_g%d" % (cfg, g)
+            units.append(dict(name=nm, srcs=[D + "c11_invoke.cpp"], build="asan0", defs=EXC + ["CFG=vsbx_" + cfg], flags=inc, libs=["-ldl"]))
+            runs.append(dict(unit=nm, label=nm + "[model]", args=[0]))
+            if cfg == "ilp32":
+                runs.append(dict(unit=nm, label=nm + "[noop]", args=[1]))
+    return dict(units=units, runs=runs, pre=[gen], evidence=dict(
+        level="exploration",
+        rule="signature family generated per run from VERIF_SEED (0..12 parameters over every integer kind, bool, enum, float, double, int*, const char*, "
+             "function pointer, by-value struct; every return kind incl. void, pointer, struct; signatures with 10 integer and 11 double parameters so "
+             "that arguments are stack-passed); three call sites per signature with generator-chosen argument forms (plain, tainted, tainted_volatile "
+             "cell, tainted_opaque, nullptr, app_pointer token, sandbox_callback, sandbox function address), always of the parameter's own type. "
+             "Three live instances over two libraries exporting the same names (distinct function bodies and, in library 2, a different table order), "
+             "calls interleaved, instances destroyed and re-created over the other library. Oracle: the guest event log must show exactly one call of "
+             "the named function in the library of the instance used with every argument word equal to the reference conversion, or no call and an "
+             "abort when an argument is unrepresentable; the tainted result must equal the reference conversion of what the guest returned (abort if "
+             "unrepresentable); the sandbox function address taken before/after invocation must be the backend's table representation and invocation "
+             "must never go through the internal-representation stub. Backends: model ILP32 and WIDE by name, noop through the static-call path.",
+        exhaustive=False,
+        assumptions=["arguments have the parameter's own type (the statement's precondition)"]))
